@@ -45,6 +45,8 @@ func init() {
 				Doc: "If a route matches, no 4xx: legal optional whitespace in Accept/Content-Type must not turn a match into 406/415."},
 			{ID: "C02.h", Template: "T-PROV", Required: true, Run: ruleAllow405,
 				Doc: "405 carries an Allow header naming exactly the methods of the path-matching routes."},
+			{ID: "C02.r", Template: "T-GUARD", Required: true, Run: ruleTraceLoggerGuarded,
+				Doc: "'Dispatching any request never panics': every call through traceLogger is controlled by the trace flag (same obligations as C19.j); after TraceLogger(nil) an unguarded call is a call on a nil interface."},
 			{ID: "C02.q", Template: "T-GUARD", Required: true, Run: ruleAlternativeAnswers,
 				Doc: "The router's error decides the outcome class. Whatever may answer in place of the service error handler (a not-found handler kept in a Container field) is chosen under a comparison of the ServiceError's Code with a constant, not because no route was selected: the selectors return a nil route for every error."},
 			{ID: "C02.p", Template: "T-GUARD", Required: true, Run: ruleMediaMatchers,
